@@ -425,7 +425,7 @@ func c14(c *an.Check) {
 
 func init() {
 	register(&Def{ID: "C14", Run: c14,
-		Explain:     "Decides: (TABLE) the rejection table in util/extra25519 (located by type: the package-level [N][32]byte literal, read from the type-checked AST by constant evaluation) equals, as a set, the encodings the checker derives itself with math/big from the curve equation: y-coordinates (sign bit cleared, values below 2^255, non-canonical y+p included) of all points P with 8P=O — 7 rows; (R1) PublicKeyToCurve25519 reports valid only past IsEdLowOrder(input)==false and SetBytes ok, converting exactly the decoded input, and returns nil bytes with an invalid verdict; (SIGNBIT) in the classifier every read of an input byte whose index is not known < 31 on the path is used only through a 0x7f mask (the table rows have the sign bit cleared, so the input's sign bit must not influence the verdict); (CALLARG) every caller passes a 32-byte operand (fixed-size value or len==32 guard on every path), which IsEdLowOrder's indexing needs. (OWNERSHIP) nothing the conversions return aliases storage released to a pool and the private-key scalar is a freshly allocated digest; (NILDEREF) as in C12.",
+		Explain:     "Decides: (TABLE) the rejection table in util/extra25519 (located by type: the package-level [N][32]byte literal, read from the type-checked AST by constant evaluation) equals, as a set, the encodings the checker derives itself with math/big from the curve equation: y-coordinates (sign bit cleared, values below 2^255, non-canonical y+p included) of all points P with 8P=O — 7 rows; (R1) PublicKeyToCurve25519 reports valid only past IsEdLowOrder(input)==false and SetBytes ok, converting exactly the decoded input, and returns nil bytes with an invalid verdict; (SIGNBIT) in the classifier every read of an input byte whose index is not known < 31 on the path is used only through a 0x7f mask (the table rows have the sign bit cleared, so the input's sign bit must not influence the verdict); (CALLARG) every caller passes a 32-byte operand (fixed-size value or len==32 guard on every path), which IsEdLowOrder's indexing needs. (OWNERSHIP) nothing the conversions return aliases storage released to a pool and the private-key scalar is a freshly allocated digest; (NILDEREF) as in C12. (ACCUMULATE) every accumulator store of the classifier depends on the element's previous value; seed provenance, use-after-scrub and private-key decode gates as in C13.",
 		NotCov:      "functional correctness of the constant-time classifier loop for all 2^256 inputs given the table (a solver/proof task — deliberately not pattern-matched), and the shared-secret symmetry clause (runtime values).",
 		Technique:   "static analysis: constant evaluation of the type-checked table literal compared with a set derived from the curve equation; SSA must-pass gates and call-site argument-length rule",
 		Assumptions: commonAssumptions})
